@@ -57,7 +57,7 @@ func (ex *Exec) initIOStubs() {
 	t["go/types.Eval"] = stubEval
 }
 
-// vRuneReader(name, n): a reader over n symbolic runes (ASCII or U+FFFD).
+// vRuneReader(name, n): a reader over n symbolic runes (ASCII, U+00E9, U+0663 or U+FFFD).
 func init() {
 	intrinsics["vRuneReader"] = func(ex *Exec, st *State, fr *Frame, args []Value, in ssa.Instruction) (Value, *forkReq) {
 		name := mustStr(args[0], "vRuneReader")
@@ -70,7 +70,9 @@ func init() {
 			full, k := ex.freshName(st, name)
 			t := ex.st.Var(full, 32)
 			st.Inputs = append(st.Inputs, Input{Name: name, Idx: k, Term: t})
-			st.addPC(ex.st.Or(ex.st.ULt(t, ex.st.BV(0x80, 32)), ex.st.Eq(t, ex.st.BV(0xFFFD, 32))))
+			// alphabet: ASCII, one non-ASCII letter (U+00E9), one non-ASCII
+			// decimal digit (U+0663) and the replacement rune of an invalid byte
+			st.addPC(ex.st.Or(ex.st.ULt(t, ex.st.BV(0x80, 32)), ex.st.Eq(t, ex.st.BV(0xE9, 32)), ex.st.Eq(t, ex.st.BV(0x663, 32)), ex.st.Eq(t, ex.st.BV(0xFFFD, 32))))
 			rv.Tape = append(rv.Tape, t)
 		}
 		obj := ex.newObj(st, rv)
@@ -107,7 +109,8 @@ func stubReadRune(ex *Exec, st *State, fr *Frame, args []Value, in ssa.Instructi
 		}
 		r := rv.Tape[0]
 		st.Heap[p.Obj] = &ReaderV{IsTape: true, Tape: rv.Tape[1:]}
-		size := s.Ite(s.ULt(r, s.BV(0x80, 32)), s.BV(1, 64), s.BV(1, 64)) // invalid byte: size 1
+		// one byte for ASCII and for the invalid byte behind U+FFFD, two for U+00E9 and U+0663
+		size := s.Ite(s.Or(s.Eq(r, s.BV(0xE9, 32)), s.Eq(r, s.BV(0x663, 32))), s.BV(2, 64), s.BV(1, 64))
 		return &TupleV{[]Value{r, size, &IfaceV{}}}, nil
 	}
 	ps := normPieces(rv.Pieces)
